@@ -81,7 +81,7 @@ void h_sqrtmp_r(void)
   __tmcg_thrown = 0; r1->v = 0;
   tmcg_mpz_sqrtmp_r(r1, a, p);
   __CPROVER_assert(__tmcg_thrown == 0 && ex_mod(ex_chk((long)r1->v * (long)r1->v), p->v) == a->v, "C09: sqrtmp_r(a, p)^2 = a (mod p)");
-  __CPROVER_assert(a->v != 4, "REACHABILITY-CANARY (must fail): the residue a = 4 is explored");
+  __CPROVER_assert(a->v != 1, "REACHABILITY-CANARY (must fail): the residue a = 1 is explored");
 }
 void h_sqrtmp(void)
 {
@@ -91,5 +91,5 @@ void h_sqrtmp(void)
   __tmcg_thrown = 0; r2->v = 0;
   tmcg_mpz_sqrtmp(r2, a, p);
   __CPROVER_assert(__tmcg_thrown == 0 && ex_mod(ex_chk((long)r2->v * (long)r2->v), p->v) == a->v, "C09: sqrtmp(a, p)^2 = a (mod p)");
-  __CPROVER_assert(a->v != 4, "REACHABILITY-CANARY (must fail): the residue a = 4 is explored");
+  __CPROVER_assert(a->v != 1, "REACHABILITY-CANARY (must fail): the residue a = 1 is explored");
 }
